@@ -148,6 +148,38 @@ def step (line : String) : String :=
     match unhex s, unhex code, sec.toInt?, parseParam p with
     | some s, some code, some sec, some p => withSpec (showVerdict (validateTOTP O s code sec p)) (Spec.Run.vtotp O s code sec p)
     | _, _, _, _ => "bad-op"
+  | ["gvhotp", s, c1, c2, p] =>
+    -- generate at counter c1, then validate that very string at counter c2
+    match unhex s, c1.toNat?, c2.toNat?, parseParam p with
+    | some s, some c1, some c2, some p =>
+      withSpec (match generateHOTP O s c1 p with
+        | .ok code => "gen-ok " ++ showVerdict (validateHOTP O s code c2 p)
+        | .err e => "gen-err " ++ e.name
+        | .panic => "panic") (Spec.Run.gvhotp O s c1 c2 p)
+    | _, _, _, _ => "bad-op"
+  | ["gvtotp", s, t1, t2, p] =>
+    match unhex s, t1.toInt?, t2.toInt?, parseParam p with
+    | some s, some t1, some t2, some p =>
+      withSpec (match generateTOTP O s t1 p with
+        | .ok code => "gen-ok " ++ showVerdict (validateTOTP O s code t2 p)
+        | .err e => "gen-err " ++ e.name
+        | .panic => "panic") (Spec.Run.gvtotp O s t1 t2 p)
+    | _, _, _, _ => "bad-op"
+  | ["rndpar", a, stream, n] =>
+    -- n concurrent calls: the multiset of results is the encodings of n consecutive segments
+    match a.toNat?, unhex stream, n.toNat? with
+    | some a, some st, some n =>
+      let (rs, _) := (List.range n).foldl (fun (acc : List String × Bytes) _ =>
+        let (r, rest) := randomSecret a acc.2
+        (showOut r :: acc.1, rest)) ([], st)
+      let specs : List String :=
+        if a ≥ 3 then List.replicate n "err"
+        else
+          let sz := if a = 0 then 20 else if a = 1 then 32 else 64
+          (List.range n).map (fun j => "ok " ++ Spec.Run.hex (Spec.b32NoPad ((st.drop (j * sz)).take sz)))
+      withSpec (" ".intercalate (rs.toArray.qsort (· < ·)).toList)
+        (if st.length < n * 64 then none else some (" ".intercalate (specs.toArray.qsort (· < ·)).toList))
+    | _, _, _ => "bad-op"
   | ["gocra", s, suite, inp] =>
     match unhex s, parseSuite suite, parseInput inp with
     | some s, some (.ok cfg), some i => withSpec (showOut (generateOCRA O s cfg i)) (Spec.Run.gocra O s cfg i)
@@ -199,7 +231,7 @@ def step (line : String) : String :=
     match a.toNat?, unhex stream with
     | some a, some st =>
       let (r, rest) := randomSecret a st
-      s!"{showOut r} consumed={st.length - rest.length}"
+      withSpec s!"{showOut r} consumed={st.length - rest.length}" (Spec.Run.rnd a st)
     | _, _ => "bad-op"
   | ["trunc", sum, m] =>
     match unhex sum, m.toNat? with
